@@ -135,6 +135,12 @@ theorem pgcGo_x (hU : Univ c.kind U) (lowUse : Nat) :
         k1 psp1 hS3 hR3 hL3 hpf2 (by show nn + 1 ≤ m1.pfileNum; omega)
         (by show k1 + 2 * (m1.pfileNum - (nn + 1)) < 1073741824; omega)
 
+/-- the visited set is not part of what `Rel` speaks about -/
+theorem Rel.visited {cfg : Cfg} {m0 m : Mem} {d0 d : Disk} (h : Rel cfg m0 d0 m d) (vis : List Nat) :
+    Rel cfg m0 d0 { m with visited := vis } d :=
+  h.trans (rel_frame h.nodup (fun _ h => h) (fun _ => rfl)
+    (List.Perm.of_eq (recordedG_congr rfl rfl rfl)))
+
 /-- a whole primary GC cycle -/
 theorem primaryGC_rel (hU : Univ c.kind U) {m : Mem} {d : Disk} {k pf : Nat} {psp : Nat → List GSpan}
     (hS : HState c U cfg m d spec k B pf psp) (hnd : (recordedG ⟨cfg, m, d⟩).Nodup)
@@ -162,8 +168,8 @@ theorem primaryGC_rel (hU : Univ c.kind U) {m : Mem} {d : Disk} {k pf : Nat} {ps
       · exact h
   cases r1 with
   | flushErr => cases hres
-  | deadline => simp only [Option.some.injEq] at hres; subst hres; exact (hS1 (by decide)).2
-  | err => simp only [Option.some.injEq] at hres; subst hres; exact (hS1 (by decide)).2
+  | deadline => simp only [Option.some.injEq] at hres; subst hres; exact (hS1 (by decide)).2.visited _
+  | err => simp only [Option.some.injEq] at hres; subst hres; exact (hS1 (by decide)).2.visited _
   | ok =>
   obtain ⟨⟨psp1, hS1'⟩, hR1⟩ := hS1 (by decide)
   have hgc1 : d1.freeGc = none := hgcok1 rfl
@@ -189,9 +195,9 @@ theorem primaryGC_rel (hU : Univ c.kind U) {m : Mem} {d : Disk} {k pf : Nat} {ps
   cases r2 with
   | flushErr => cases hres
   | deadline =>
-    simp only [Option.some.injEq] at hres; subst hres; exact hR1.trans (hS2 (by decide)).2
+    simp only [Option.some.injEq] at hres; subst hres; exact (hR1.trans (hS2 (by decide)).2).visited _
   | err =>
-    simp only [Option.some.injEq] at hres; subst hres; exact hR1.trans (hS2 (by decide)).2
+    simp only [Option.some.injEq] at hres; subst hres; exact (hR1.trans (hS2 (by decide)).2).visited _
   | ok =>
   obtain ⟨⟨psp2, hS2'⟩, hR2'⟩ := hS2 (by decide)
   have hR2 := hR1.trans hR2'
